@@ -57,20 +57,36 @@ def float_array(draw, shape, elements, sparse=True):
 
 
 @st.composite
+def higher_coeffs(draw, shape, elements, sparse=True):
+    """higher-order coefficient block (D-1,)+rest: dense, element-sparse, or with whole orders zeroed
+    (patterns like x0 + x2 t^2, x0 + x3 t^3: an identically zero layer below a non-zero one)"""
+    a = draw(float_array(shape, elements, sparse=sparse))
+    n = shape[0] if len(shape) else 0
+    if n >= 2 and draw(st.integers(0, 3)) == 0:
+        keep = draw(st.lists(st.booleans(), min_size=n, max_size=n))
+        if not any(keep):
+            keep[-1] = True
+        a = a * np.array(keep, dtype=float).reshape((n,) + (1,) * (len(shape) - 1))
+        if keep[-1] and not np.any(a[-1]):
+            a[-1] = 1.0
+    return a
+
+
+@st.composite
 def utpm_data(draw, D, P, shape, base, mag=1.0, cplx=False, base_im=None):
     """coefficient array (D,P)+shape; zeroth coefficients from ``base`` (drawn independently per
     direction and element), higher ones from coeff_elements (dense or sparse patterns)."""
     shape = tuple(shape)
     x0 = draw(float_array((1, P) + shape, base, sparse=False))
     if D > 1:
-        hi = draw(float_array((D - 1, P) + shape, coeff_elements(mag)))
+        hi = draw(higher_coeffs((D - 1, P) + shape, coeff_elements(mag)))
         x = np.concatenate([x0, hi], axis=0)
     else:
         x = x0
     if cplx:
         im0 = draw(float_array((1, P) + shape, base_im if base_im is not None else coeff_elements(mag), sparse=False))
         if D > 1:
-            imh = draw(float_array((D - 1, P) + shape, coeff_elements(mag)))
+            imh = draw(higher_coeffs((D - 1, P) + shape, coeff_elements(mag)))
             im = np.concatenate([im0, imh], axis=0)
         else:
             im = im0
@@ -87,6 +103,8 @@ def pattern_class(x):
     nz = np.count_nonzero(hi)
     if nz == 0:
         return 'const'
+    if any(not np.any(hi[k]) and np.any(hi[k + 1:]) for k in range(hi.shape[0] - 1)):
+        return 'zero-layer-below-nonzero'
     if nz < hi.size / 2:
         return 'sparse'
     return 'dense'
